@@ -275,7 +275,7 @@ def _env_private_first():
 def task_tables(ctx, which, order="public-first", reinit=0):
     _ORDER[0] = order
     E = env()
-    T = E["tables"][which]
+    T = E["tables"]["private" if which == "fresh" else which]
     if reinit:
         # the same table initialised again and again with the documented reload=True (a long-running service that
         # refreshes its private table): the 150th initialisation serves what the first one served
@@ -285,6 +285,17 @@ def task_tables(ctx, which, order="public-first", reinit=0):
             crystal_structure.init(T, reload=True)
             magnetic_ff.init(T, reload=True)
         ctx.count("reinitialised-%d-times" % reinit)
+        if which == "fresh":
+            # ... and a table created only now, after all those initialisations, is served like the first one
+            from periodictable import mass, density
+            T = subtable.new("c20-fresh-after-reloads")
+            mass.init(T)
+            density.init(T)
+            covalent_radius.init(T)
+            crystal_structure.init(T)
+            xsf.init_spectral_lines(T)
+            xsf.init(T)
+            magnetic_ff.init(T)
     ctx.extra["entries"] = dict((k, len(v)) for k, v in E["oracle"].items())
     ctx.extra["magnetic-charge-states"] = sum(len(v) for v in E["oracle"]["magnetic"].values())
     for Z in range(0, 119):
@@ -806,6 +817,7 @@ def tasks(tier):
            ("tables-private", task_tables, dict(which="private")),
            ("tables-subclass", task_tables, dict(which="subclass")),
            ("tables-private-after-150-reloads", task_tables, dict(which="private", reinit=150)),
+           ("tables-fresh-table-after-150-reloads", task_tables, dict(which="fresh", reinit=150)),
            ("tables-public-after-private-init", task_tables, dict(which="public", order="private-first")),
            ("tables-private-initialised-first", task_tables, dict(which="private", order="private-first")),
            ("cromer-mann", task_cm, {})]
